@@ -103,9 +103,14 @@ fn main() {
         for wi in 0..worlds {
             let m = *[1usize, 5, 40].choose(&mut rng).unwrap();
             let mut w = World::new(WorldCfg { nodes: vec!["n1".into()], grace: 100000, ..Default::default() });
-            let ids: Vec<WId> = (0..m).map(|i| WId { node_id: format!("m{i}"), generation: 0, addr: format!("10.1.{}.{}:7000", i / 200, i % 200 + 1).parse().unwrap() }).collect();
+            // short ids and long near-incompressible ones (a member header of 30 to 280 bytes), large generations
+            let ids: Vec<WId> = (0..m).map(|i| {
+                let node_id = match rng.random_range(0..3) { 0 => format!("m{i}"), _ => format!("m{i}-{}", big_value(&format!("id{wi}-{i}"), *[20usize, 60, 90, 150, 240].choose(&mut rng).unwrap())) };
+                WId { node_id, generation: if rng.random_bool(0.5) { 0 } else { rng.random::<u64>() >> 1 }, addr: format!("10.1.{}.{}:7000", i / 200, i % 200 + 1).parse().unwrap() }
+            }).collect();
             let _ = w.deliver("n1", &codec::encode(&WMsg::Syn { cluster: "c".into(), digest: ids.iter().map(|id| WNodeDigest { id: id.clone(), hb: 1, gc: 0, max: 0 }).collect() }, &like));
             let mut versions: Vec<Vec<u64>> = vec![Vec::new(); m];
+            let mut maxv: Vec<u64> = vec![0; m];
             for (mi, id) in ids.iter().enumerate() {
                 let nkeys = match rng.random_range(0..6) { 0 => 0, 1 => rng.random_range(1..4), 2 => 300, _ => rng.random_range(1..if m > 5 { 40 } else { 300 }) };
                 let mut ver = 0u64;
@@ -139,11 +144,48 @@ fn main() {
                     ops.append(&mut batch);
                     let _ = w.deliver("n1", &codec::encode(&WMsg::Ack { ops }, &like));
                 }
+                // some members end with a max version above their last entry (as after the owner's newest
+                // writes were deleted and collected): asked from the last entry on, the sender then emits a
+                // member header followed by a SetMaxVersion op only
+                maxv[mi] = versions[mi].last().copied().unwrap_or(0);
+                if rng.random_range(0..3) == 0 {
+                    let top = versions[mi].last().copied().unwrap_or(0);
+                    maxv[mi] = top + rng.random_range(1..4);
+                    let ops = vec![WOp::Node { id: id.clone(), gc: 0, from: top }, WOp::SetMax { max: maxv[mi] }];
+                    let _ = w.deliver("n1", &codec::encode(&WMsg::Ack { ops }, &like));
+                }
             }
             // what the node really holds (through the public API)
             let view = w.project("n1");
             let held: Vec<Vec<u64>> = ids.iter().map(|id| { let mut v: Vec<u64> = view["ns"][&vharness::world::name_of_wid(id)]["kv"].as_object().map(|o| o.values().map(|e| e["ver"].as_u64().unwrap()).collect()).unwrap_or_default(); v.sort(); v }).collect();
-            for q in 0..queries {
+            // dense part: a digest that leaves only a few members stale (by their last entries or by a max
+            // version above the last entry), and EVERY budget from 100 bytes (the smallest the property covers) up to just above the unconstrained
+            // length -- so that each op boundary is approached byte by byte
+            let mut dense: Vec<(Vec<WNodeDigest>, usize)> = Vec::new();
+            for _ in 0..(if quick { 5 } else { 25 }) {
+                let mut digest = Vec::new();
+                // three to eight members are stale: preferably those whose max version is above their last entry
+                // (asked from the last entry on: header + SetMaxVersion only), the others by their last 1-2 entries
+                let mut order: Vec<usize> = (0..m).collect();
+                order.shuffle(&mut rng);
+                order.sort_by_key(|&mi| if maxv[mi] > held[mi].last().copied().unwrap_or(0) { 0 } else { 1 });
+                let chosen: Vec<usize> = order.into_iter().take(rng.random_range(3..=8usize).min(m)).collect();
+                for (mi, id) in ids.iter().enumerate() {
+                    let top = held[mi].last().copied().unwrap_or(0);
+                    let dmax = if chosen.contains(&mi) {
+                        if maxv[mi] > top && rng.random_range(0..4) != 0 { top }
+                        else { match rng.random_range(0..2) { 0 => held[mi].iter().rev().nth(1).copied().unwrap_or(0), _ => held[mi].iter().rev().nth(2).copied().unwrap_or(0) } }
+                    } else { maxv[mi] };
+                    digest.push(WNodeDigest { id: id.clone(), hb: 1, gc: 0, max: dmax });
+                }
+                let db = codec::encode_digest(&digest);
+                let full = { let _g = w.rt.enter(); w.nodes.get("n1").unwrap().cc.verif_compute_delta(&db, 65507).map(|b| b.len()).unwrap_or(0) };
+                if full > 100 && full < 2500 {
+                    for mtu in 100..=(full + 10).max(100) { dense.push((digest.clone(), mtu)); }
+                }
+            }
+            let ndense = dense.len();
+            for q in 0..(queries + ndense) {
                 let mut digest = Vec::new();
                 for (mi, id) in ids.iter().enumerate() {
                     if rng.random_range(0..4) == 0 { continue; }
@@ -151,13 +193,15 @@ fn main() {
                     let dmax = match rng.random_range(0..4) { 0 => 0, 1 => top, _ => rng.random_range(0..=top) };
                     digest.push(WNodeDigest { id: id.clone(), hb: 1, gc: 0, max: dmax });
                 }
-                let mtu: usize = match rng.random_range(0..6) {
+                let is_dense = q >= queries;
+                if is_dense { digest = dense[q - queries].0.clone(); }
+                let mtu: usize = if is_dense { dense[q - queries].1 } else { match rng.random_range(0..6) {
                     0 => rng.random_range(100..400),
                     1 => 16384 * rng.random_range(1..4) + rng.random_range(0..12) - 6,
                     2 => 65507 - rng.random_range(0..8),
                     3 => rng.random_range(100..3000),
                     _ => rng.random_range(100..65508),
-                };
+                } };
                 let db = codec::encode_digest(&digest);
                 let r = std::panic::catch_unwind(std::panic::AssertUnwindSafe(|| { let _g = w.rt.enter(); w.nodes.get("n1").unwrap().cc.verif_compute_delta(&db, mtu) }));
                 let (bytes, panic) = match r { Ok(Ok(b)) => (b, None), Ok(Err(e)) => (vec![], Some(e.to_string())), Err(e) => (vec![], Some(vharness::world::panic_text(e))) };
